@@ -84,6 +84,51 @@ def literal_table(fn):
     return {"kind": kind, "map": out}
 
 
+def direct_token_table(fn):
+    """the two tables fused: fn f(x, index) -> Option<Token> { match x { lit => Some(Token::T(index)), ..., _ => None } }
+    -> (kind, {lit: T})"""
+    ms = nodes(fn["body"], "Match")
+    if len(ms) != 1 or len(fn["body"]["stmts"]) != 1 or len(fn["inputs"]) != 2:
+        return None
+    m = ms[0]
+    if any("pat" not in i or i["pat"]["k"] != "PIdent" for i in fn["inputs"]):
+        return None
+    p0, p1 = fn["inputs"][0]["pat"]["name"], fn["inputs"][1]["pat"]["name"]
+    if ident_of(m["expr"]) != p0:
+        return None
+    out = {}
+    kind = None
+    default_none = False
+    for a in m["arms"]:
+        p = a["pat"]
+        if a["guard"] is not None:
+            return None
+        if p["k"] == "PWild":
+            if not (a["body"]["k"] == "Path" and a["body"]["path"]["segs"] == ["None"]):
+                return None
+            default_none = True
+            continue
+        lits = [p] if p["k"] == "PLit" else (p["cases"] if p["k"] == "POr" else None)
+        if lits is None or any(l["k"] != "PLit" for l in lits):
+            return None
+        b = a["body"]
+        if not (b["k"] == "Call" and path_str(b["func"]) == "Some" and len(b["args"]) == 1):
+            return None
+        t_ = b["args"][0]
+        if not (t_["k"] == "Call" and t_["func"]["k"] == "Path" and len(t_["func"]["path"]["segs"]) == 2 and len(t_["args"]) == 1 and ident_of(t_["args"][0]) == p1):
+            return None
+        for l in lits:
+            t = l["lit"]["t"]
+            if kind is None:
+                kind = t
+            if t != kind or t not in ("str", "char"):
+                return None
+            out[l["lit"]["v"]] = t_["func"]["path"]["segs"][-1]
+    if not default_none:
+        return None
+    return {"kind": kind, "map": out}
+
+
 def kind_token_table(fn):
     """fn f(kind: K, index) -> Token { match kind { K::V => Token::T(index), ... } } -> {V: T}"""
     ms = nodes(fn["body"], "Match")
@@ -145,6 +190,17 @@ def extract(syn):
     else:
         tf.flush = tf.fns.get(after[0]["method"])
         tf.flush_call = after[0]
+    # the dollar-less terminal name type: its constructor from text and its text accessor, by signature
+    tf.dollarless_ctor, tf.dollarless_raw = None, None
+    for (pp, im, fn) in syn.all_fns():
+        if im is None or im.get("trait") is not None or im["self_ty"].strip() != "DollarlessTerminalName":
+            continue
+        ins = fn.get("inputs", [])
+        outp = (fn.get("output") or "").replace(" ", "")
+        if len(ins) == 1 and (ins[0].get("ty") or "").replace(" ", "") == "&str" and outp in ("Self", "DollarlessTerminalName"):
+            tf.dollarless_ctor = fn["name"]
+        if len(ins) == 1 and ins[0].get("self") and outp == "&str":
+            tf.dollarless_raw = fn["name"]
     # literal tables
     for name, fn in tf.fns.items():
         lt = literal_table(fn)
@@ -164,6 +220,15 @@ def extract(syn):
                 else:
                     tf.punct = comp
                     tf.punct_fn = ln
+    # ... or one fused table lit -> token
+    for name, fn in tf.fns.items():
+        dt = direct_token_table(fn)
+        if dt and dt["kind"] == "char" and not tf.punct:
+            tf.punct = dict(dt["map"])
+            tf.punct_fn = name
+        elif dt and dt["kind"] == "str" and not tf.reserved:
+            tf.reserved = dict(dt["map"])
+            tf.reserved_fn = name
     # state field / enum / handlers from the dispatcher's `match self.<state>`
     tf.state_field = tf.state_enum = tf.initial_state = tf.out_field = tf.count_newtype = None
     tf.dispatch_match = None
